@@ -165,6 +165,11 @@ func (t *topicTrie) matchTopic(topicSlice []string, rs subscription.ClientSubscr
 func (t *topicTrie) getMatchedTopicFilter(topicName string) subscription.ClientSubscriptions {
 	topicLv := strings.Split(topicName, "/")
 	subs := make(subscription.ClientSubscriptions)
+	if isSystemTopic(topicName) {
+		// The Server MUST NOT match Topic Filters starting with a wildcard character (# or +)
+		// with Topic Names beginning with a $ character [MQTT-4.7.2-1]
+		t = &topicNode{children: children{topicLv[0]: t.children[topicLv[0]]}}
+	}
 	t.matchTopic(topicLv, subs)
 	return subs
 }
